@@ -63,6 +63,35 @@ def decPn (s : String) : List (Bytes × NumC) :=
     | [v, c] => some (unhex v, if c == "e" then .err else if c == "n" then .nan else .val (floatKey (hexNat c)))
     | _ => none
 
+/-- The raw `pn=` table: value ↦ class string (`e`, `n`, or 16 hex digits of the float64 bits). -/
+def decPnRaw (s : String) : List (Bytes × String) :=
+  if s == "-" then [] else (s.splitOn ",").filterMap fun e =>
+    match e.splitOn ":" with
+    | [v, c] => some (unhex v, c)
+    | _ => none
+
+open Spec.ParseNum in
+def implSNum (c : String) : SNum :=
+  if c == "e" then .err else if c == "n" then .nan else ofBits (hexNat c)
+
+open Spec.ParseNum in
+/-- The specification's view of the reported parseNum results: for every value the class string
+the implementation must report — its own where it is faithful to the specified exact value,
+`want:<exact value>` otherwise — and the value the order is judged by. -/
+def specPn (raw : List (Bytes × String)) : List (Bytes × String × SNum) :=
+  raw.map fun (v, c) =>
+    let (val, ok) := reconcile (parseNum v) (implSNum c)
+    (v, if ok then c else "want:" ++ showSNum (parseNum v), val)
+
+def showPn (l : List (Bytes × String)) : String :=
+  if l.isEmpty then "-" else ",".intercalate (l.map fun (v, c) => v.toHex ++ ":" ++ c)
+
+open Spec.ParseNum in
+def specNumOf (tbl : List (Bytes × String × SNum)) (v : Bytes) : SNum :=
+  match tbl.find? (·.1 == v) with
+  | some e => e.2.2
+  | none => parseNum v
+
 def pnOf (tbl : List (Bytes × NumC)) (v : Bytes) : NumC :=
   match tbl.find? (·.1 == v) with
   | some e => e.2
@@ -155,16 +184,17 @@ def renderProj (pn : Bytes → NumC) (id : String) (pi : Nat) (p : Proj) (stream
     ".".intercalate (first.map fun a => String.ofList (first.map fun b => bit (equalRow (p.vals a) (p.vals b))))
   s!"obs {id} p={pi} fields={showHexList p.fieldNames} flat={showHexList (flat.map (·.name))} n={n} ids={showNats ids} get={get} str={str} less={less} sorts={sorts} ns={ns} nsr={nsr} nsp={nsp} eq={eq}"
 
-def obsLines (pn : Bytes → NumC) (id : String) (ops : List Op) : List String :=
+def obsLines (pn : Bytes → NumC) (raw : List (Bytes × String)) (id : String) (ops : List Op) : List String :=
   let st := run weakHash ops
   let pe := if st.perr.isEmpty then "-" else ".".intercalate st.perr
   s!"obs {id} parse={pe} np={st.world.projs.length}" ::
+  s!"obs {id} pn={showPn ((specPn raw).map fun e => (e.1, e.2.1))}" ::
     (st.world.projs.zipIdx.map fun (p, i) => renderProj pn id i p (st.streams.getD i []))
 
 /-! ### The specification's lines -/
 
 open Spec.Keys in
-def specProj (pn : Bytes → NumC) (id : String) (specific : List Bytes) (pi : Nat) (p : PSpec)
+def specProj (pn : Bytes → Spec.ParseNum.SNum) (id : String) (specific : List Bytes) (pi : Nat) (p : PSpec)
     (obs : List Obs) : String :=
   let cols := columns specific p obs
   let tuples := obs.map fun o => cols.map fun c => c.value specific o
@@ -188,7 +218,9 @@ def specProj (pn : Bytes → NumC) (id : String) (specific : List Bytes) (pi : N
   s!"spec {id} p={pi} flat={showHexList (cols.map (·.name))} n={n} ids={showNats ids} get={get} less={less} sorts={sorts} nsp={nsp}"
 
 open Spec.Keys in
-def specLines (pn : Bytes → NumC) (id : String) (ops : List Op) : List String :=
+def specLines (raw : List (Bytes × String)) (id : String) (ops : List Op) : List String :=
+  let tbl := specPn raw
+  let pn := specNumOf tbl
   let specific := specificKeys ops
   let ps := projections ops
   let perProj := ps.zipIdx.map fun (p, i) => specProj pn id specific i p (observations ops ps i)
@@ -201,13 +233,15 @@ def specLines (pn : Bytes → NumC) (id : String) (ops : List Op) : List String 
   let hasResidue := ops.any fun
     | .residue => true
     | _ => false
-  perProj ++ (if alls.isEmpty || !hasResidue then [] else [s!"spec {id} ll={showNats ll}"])
+  s!"spec {id} pn={showPn (tbl.map fun e => (e.1, e.2.1))}" ::
+    (perProj ++ (if alls.isEmpty || !hasResidue then [] else [s!"spec {id} ll={showNats ll}"]))
 
 /-- All lines of the driver for one case line. -/
 def handle (l : Line) : List String :=
   if l.kind != "case" then [] else
   let ops := decOps (l.getD "ops" "-")
   let pn := pnOf (decPn (l.getD "pn" "-"))
-  obsLines pn l.id ops ++ (if l.getD "s" "0" == "1" then specLines pn l.id ops else [])
+  let raw := decPnRaw (l.getD "pn" "-")
+  obsLines pn raw l.id ops ++ (if l.getD "s" "0" == "1" then specLines raw l.id ops else [])
 
 end Proc.ProjProto
